@@ -43,7 +43,12 @@ pub fn string_of(v: &Value) -> String {
 fn main() {
     let kind = std::env::args().nth(1).expect("kind");
     let mut input = String::new();
-    std::io::stdin().read_to_string(&mut input).unwrap();
+    // VREPLAY_INPUT=<file>: take the input from a file (replays that need stdin to be a terminal)
+    if let Ok(f) = std::env::var("VREPLAY_INPUT") {
+        input = std::fs::read_to_string(f).unwrap();
+    } else {
+        std::io::stdin().read_to_string(&mut input).unwrap();
+    }
     let v: Value = serde_json::from_str(&input).expect("json input");
     let out = match kind.as_str() {
         "c17_roundtrip" => c17::roundtrip(&v),
@@ -70,6 +75,7 @@ fn main() {
         "c14_entry" => c14::entry(&v),
         "c14_prune_select" => c14::prune_select(&v),
         "c14_pre_commit_skip" => c14::pre_commit_skip(&v),
+        "c14_pre_commit_untracked" => c14::pre_commit_untracked(&v),
         "c15_comparator" => c15::comparator(&v),
         "c15_guards" => c15::guards(&v),
         "c07_journal_parse" => c07::journal_parse(&v),
@@ -77,6 +83,7 @@ fn main() {
         "c07_post_hook_journal" => c07::post_hook_journal(&v),
         "c07_pre_commit_refusal" => c07::pre_commit_refusal(&v),
         "c08_policy" => c08::policy(&v),
+        "c08_post_commit" => c08::post_commit(&v),
         "c09_lookup" => c09::lookup(&v),
         "c09_overlay" => c09::overlay(&v),
         "c09_blame" => c09::blame(&v),
